@@ -34,6 +34,7 @@ def run(ctx, args):
     ctx.model_check("MC_Sticky", "MC_StickyPinned.cfg", expect_violation="Sticky")     # the method-name exclusion (D17) violates it
     ctx.model_check("MC_Sticky", "MC_StickyPurge.cfg", expect_violation="StickyStep")   # a purge that evicts live pins (due after a long uptime) violates it
     ctx.model_check("MC_Sticky", "MC_StickyExpires.cfg", expect_violation="StickyStep")  # a pin table that ignores the Expires of the establishing response violates it
+    ctx.model_check("MC_Sticky", "MC_StickyReject.cfg", expect_violation="StickyStep")      # releasing the pin when an INVITE of the established dialog is rejected violates it
     ctx.model_check("MC_Sticky", "MC_StickyReach.cfg", expect_violation="Reach_PinnedAfterRotation")
     ctx.model_check("MC_Sticky", "MC_StickyReachLong.cfg", expect_violation="Reach_LongSurvives")
     beh = os.path.join(ctx.scratch, "sticky_behaviours.ndjson")
